@@ -21,6 +21,7 @@ static void init_dkeys(void) { int i; for (i = 0; i < NDK; i++) sprintf(dkeys[i]
 static int g_heavy = 0;
 static size_t pick_len(void) {
   uint32_t r = d_rn(100);
+  if (getenv("CRASH_SMALL") != NULL) return 5 + d_rn(60);
   if (g_heavy) return r < 80 ? 60000 + d_rn(120000) : 50 + d_rn(3000);   /* megabytes of data: compactions with several outputs */
   if (r < 4) return 100000 + d_rn(60000);   /* one batch spanning 3-5 log blocks */
   if (r < 14) return 20000 + d_rn(30000);
@@ -69,6 +70,17 @@ static void scan_json(ldb_t *db, FILE *o) {
       if (rc == 0) ldb_free(v.data);
       if (got != exp) mism++; }
     fprintf(o, ",\"getmismatch\":%d", mism); }
+  if (getenv("CRASH_PROBE") != NULL) {
+    /* corruption probes: every lookup with its status, and a backward scan */
+    fprintf(o, ",\"gets\":[");
+    for (i = 0; i < NDK; i++) { ldb_slice_t k = ldb_string(dkeys[i]), v; int rc = ldb_get(db, &k, &v, &ro);
+      fprintf(o, "%s[%d,%d,%d]", i ? "," : "", i, rc, rc == 0 ? d_valid(v.data, v.size) : 0); if (rc == 0) ldb_free(v.data); }
+    fprintf(o, "],\"bwd\":[");
+    { ldb_iter_t *bi = ldb_iterator(db, &ro); int first = 1;
+      for (ldb_iter_last(bi); ldb_iter_valid(bi); ldb_iter_prev(bi)) { ldb_slice_t k = ldb_iter_key(bi), v = ldb_iter_value(bi); const unsigned char *kp = k.data;
+        if (k.size == 3 && kp[0] == 'x') { char t[4]; memcpy(t, kp + 1, 2); t[2] = 0; fprintf(o, "%s[%d,%d]", first ? "" : ",", atoi(t), d_valid(v.data, v.size)); first = 0; } }
+      fprintf(o, "],\"bwdstatus\":%d", ldb_iter_status(bi)); ldb_iter_destroy(bi); }
+  }
 }
 
 static void arm_faults(void) {
